@@ -26,7 +26,11 @@ impl JmespathError {
         // Find each new line so we can create a formatted error message.
         let mut line: usize = 0;
         let mut column: usize = 0;
-        for c in expr.chars().take(offset) {
+        // `offset` is a byte offset into `expr`: walk the characters that start before it.
+        for (pos, c) in expr.char_indices() {
+            if pos >= offset {
+                break;
+            }
             match c {
                 '\n' => {
                     line += 1;
